@@ -107,7 +107,8 @@ def _mk_sampler(env, kind, S, dims, n):
 SINGLE = ("PINN", "Mean", "DeepRitz", "Adaptive", "Custom", "HPMSampler")
 
 
-def single_case(cond, S, M, outs, kind, has_p=True, has_f=True, has_c=False, xdim=1, n=2, calls=1, free=False, declared=None):
+def single_case(cond, S, M, outs, kind, has_p=True, has_f=True, has_c=False, xdim=1, n=2, calls=1, free=False, declared=None,
+                warm_order=None):
     """free=True: the residual returns fresh symbols R (an ARBITRARY residual value per row and component) after recording
     what it received; the loss must then be the documented reduction of R"""
     name = "single/%s/S=%s/M=%s/out=%s/%s/x%d/n%d%s%s%s%s%s" % (
@@ -117,6 +118,10 @@ def single_case(cond, S, M, outs, kind, has_p=True, has_f=True, has_c=False, xdi
     declared = dict(declared or {})
     if declared:
         name += "/declared_defaults=" + ",".join(declared)
+    if warm_order:
+        # history: the SAME model object was evaluated before on points whose variables come in yet another order
+        # (another condition sharing the model, with its own sampler)
+        name += "/model_used_before_with_order_" + "".join(warm_order)
     dims = DIMS2 if xdim == 2 else DIMS1
     use_model = cond != "HPMSampler"
     outs_eff = tuple(outs) if use_model else ()
@@ -125,6 +130,8 @@ def single_case(cond, S, M, outs, kind, has_p=True, has_f=True, has_c=False, xdi
         L = env.L
         model, orc = K.sym_fcn(env, "m", K.space_of(M, dims), K.space_of(outs, dims))
         smp, recorder, sp = _mk_sampler(env, kind, S, dims, n)
+        if warm_order:
+            model(K.fixed_points(env, "warm_pts", tuple(warm_order), dims, n))
         prm, prm_o = (K.sym_parameter(env, "p", Space({"p": 1})) if has_p else (None, {}))
         f = K.LinFn(env, "f", list(reversed(S)), dims) if has_f else None
         c_t = env.tensor("c", (n, 1)) if has_c else None
@@ -1045,6 +1052,7 @@ def cases(tier):
         cs.append(single_case(cond, XT, TX, UV if cond != "HPMSampler" else U, "fixed_static" if cond == "Adaptive" else "random",
                               free=True, n=3, calls=1 if cond == "Adaptive" else 2))
     cs.append(single_case("PINN", ("s", "x", "t"), ("t", "s", "x"), U, "fixed"))
+    cs.append(single_case("PINN", ("s", "x", "t"), ("t", "s", "x"), U, "fixed", warm_order=("x", "t", "s")))
     cs.append(single_case("Mean", ("t", "s", "x"), ("x", "t", "s"), UV, "fixed_static"))
     if th:
         for S in itertools.permutations(("x", "t", "s")):
